@@ -6,4 +6,4 @@ Extraction Language OCaml.
 Set Extraction KeepSingleton.
 Extraction "model.ml" extraction_prelude
   prog drops init step labels final inv_b phase_sb measure expected own_allocs summarise summarise_re
-  records obs_step taus replay log_sb plen ndrops finished panicked thread_faults.
+  records run_records obs_step taus replay log_sb plen ndrops finished panicked thread_faults.
